@@ -21,7 +21,7 @@ RULE = ("1D (irregular bins, zeros, int / float contents, custom errors, named) 
         "texts, title, axis labels, ticks; plotly traces; captured stdout) are compared with the histogram's edges / centres and frequencies / "
         "densities / running sums / +-sqrt(errors2); the histogram snapshot must be identical before and after; wrong dimension, unknown backend "
         "and kind must be refused; TimeTickHandler ticks must be the multiples of the unit inside the range (or edges / centres) with one label "
-        "each; a case = one figure; non-trivial = >= 2 bins with unequal widths or a non-default option; distinct by hash of (histogram, kind, options)")
+        "each; a case = one figure; non-trivial = >= 2 bins with unequal widths or a non-default option; distinct by hash of (histogram, kind, options) Plus the ASCII heat map (frame size and cell brightness observed as the arguments of xtermcolor.colorize) and image refusals for irregular bins of any scale.")
 ASSUMPTIONS = ["matplotlib artists are read back from the Axes object (Agg backend); nothing is rendered to pixels",
                "plotly heat maps: z must be the transposed contents with the bins' edges (or centres) as x / y"]
 
